@@ -166,7 +166,7 @@ class Ledger(object):
         cov = {
             # obligations listed as known findings are reported separately: they are
             # refuted (genuine defects recorded in known_findings.json), not discharged
-            'obligations': n_obl - n_known,
+            'obligations': n_dis + len(self.undecided) + len(new_viol),
             'discharged': n_dis,
             'refuted_known_findings': n_known,
             'refuted_new': len(new_viol),
